@@ -214,7 +214,8 @@ def check_invariants(goal, state, goal_th, do_export=True):
     except Timeout:
         return [("timeout", "import")]
     except Exception as e:  # noqa
-        bad.append(("import-fails", "%s: %s" % (type(e).__name__, short(e))))
+        cause = diagnose_import(goal, state, data["proof"])
+        bad.append(("import-fails" + (":" + cause if cause else ""), "%s: %s" % (type(e).__name__, short(e))))
         goal.set_context()
         return bad
     goal.set_context()
@@ -244,6 +245,55 @@ def check_invariants(goal, state, goal_th, do_export=True):
         except Exception as e:  # noqa
             bad.append(("import-recheck-fails", "%s: %s" % (type(e).__name__, short(e))))
     return bad
+
+
+def diagnose_import(goal, state, exported):
+    """Why can an exported proof not be read back?  Re-reads the exported lines one by one the way
+    server.parse_proof does and names two known causes exactly (anything else stays unnamed, so a
+    different failure keeps its own key):
+      shadowed-variable  -- the line mentions a name that is declared twice with different types
+                            (a `variable` line of a subproof re-declares a variable of the context);
+      inst-tyinst-lost   -- an Inst argument carries a type instantiation, which the textual form
+                            `{x: t, ...}` drops."""
+    from kernel.term import Inst
+    from logic import context
+    from syntax import parser
+    items = [it for _, it in walk(state)]
+    decl = {}
+    for v in state.vars:
+        decl.setdefault(v.name, set()).add(v.T)
+    for it in items:
+        if it.rule == "variable" and it.args:
+            decl.setdefault(it.args[0], set()).add(it.args[1])
+    clash = {n for n, ts in decl.items() if len(ts) > 1}
+    goal.set_context()
+    try:
+        for line, it in zip(exported, items):
+            line = {k: line[k] for k in ("id", "th", "rule", "args", "prevs")}
+            try:
+                if line["rule"] == "variable":
+                    nm, str_T = line["args"].split(",", 1)
+                    context.ctxt.vars[nm] = parser.parse_type(str_T.strip())
+                it2 = parser.parse_proof_rule(line)
+            except Exception:  # noqa
+                names = set()
+                if it.th is not None:
+                    for t in (it.th.prop,) + tuple(it.th.hyps):
+                        names.update(v.name for v in t.get_vars())
+                return "shadowed-variable" if names & clash else None
+            if it2.args != it.args or (isinstance(it.args, tuple) and any(isinstance(a, Inst) for a in it.args)):
+                a1 = [a for a in (it.args if isinstance(it.args, tuple) else (it.args,)) if isinstance(a, Inst)]
+                a2 = [a for a in (it2.args if isinstance(it2.args, tuple) else (it2.args,)) if isinstance(a, Inst)]
+                if a1 and a2 and any(x.tyinst and dict(x.tyinst) != dict(y.tyinst) and dict(x) == dict(y) for x, y in zip(a1, a2)):
+                    return "inst-tyinst-lost"
+            if it2.th != it.th and it.th is not None:
+                names = set()
+                for t in (it.th.prop,) + tuple(it.th.hyps):
+                    names.update(v.name for v in t.get_vars())
+                return "shadowed-variable" if names & clash else None
+    finally:
+        goal.set_context()
+    return None
 
 
 def short(e, n=160):
@@ -590,7 +640,10 @@ class Runner:
         return d
 
     def report(self, cls, detail, method_name, state=None):
-        key = "%s:%s:%s" % (cls, method_name, err_class(detail))
+        if cls.startswith("import-fails:"):
+            key = cls                      # a diagnosed cause: independent of the step that exposed it
+        else:
+            key = "%s:%s:%s" % (cls, method_name, err_class(detail))
         what = "%s after %s on %s: %s" % (cls, method_name, self.goal.ident(), detail)
         rp = self.replay_dict({"invariant": cls, "detail": detail})
         if state is not None:
@@ -831,9 +884,16 @@ def run(ctx):
         "apply_fact/new_var/inst_exists_goal and search_method suggestions with type-directed parameters), random walks; every step on the "
         "live state or on copy.copy(state) (adopted or discarded). A case = one completed step judged by all invariants; non-trivial = at "
         "least two completed steps in the sequence; distinct by (goal, completed step sequence).")
+    try:                               # `kill -USR1 <pid>` prints where a run is (diagnosis of hangs)
+        import faulthandler
+        import signal
+        faulthandler.register(signal.SIGUSR1)
+    except Exception:  # noqa
+        pass
     proofs_ok = ctx.lean_props(["Holpy.C13.Props"], exes=[EXE])
     if ctx.tier == "thorough" and proofs_ok:
         ctx.lean_check_modules(["Holpy.C13.Props"])
+    ctx.findings = ctx.findings + [dict(f, property="C13") for f in FINDINGS if not any(g["key"] == f["key"] for g in ctx.findings)]
     ctx.coverage["trusted_base"] += [
         "property oracle harness/props/c13.py: invariants evaluated on the real ProofState objects with holpy's own checker "
         "(theory.check_proof) as the judge of 'checkable'; independent visibility/numbering walk",
@@ -841,13 +901,26 @@ def run(ctx):
     ctx.assumptions += [
         "an operation that raises (AssertionError, TacticException, ParameterQueryException, CheckProofException, MatchException, ...) "
         "did not complete: nothing is claimed about the state it leaves; the harness continues from a rebuilt state (the web app edits copies)",
+        "lines justified by the `z3` macro are accepted without calling Z3 (z3wrapper.check_z3 = False, as server/monitor.py does)",
         "copy isolation is checked on the real objects after every step; it is not a theorem (a pure model cannot exhibit sharing)"]
     oracle_streams(ctx)
 
 
+def neutralise_z3(ctx):
+    """A native Z3 call cannot be interrupted by the harness's time limit and its running time is
+    not reproducible; like server/monitor.py the check runs with `z3wrapper.check_z3 = False`
+    (a `z3` line is then accepted by method and checker alike; Z3's verdicts are C06's subject)."""
+    try:
+        from prover import z3wrapper
+        z3wrapper.check_z3 = False
+    except Exception:  # noqa
+        pass
+
+
 def oracle_streams(ctx, recorder=None):
+    neutralise_z3(ctx)
     theories = THEORIES_QUICK if ctx.tier == "quick" else THEORIES_THOROUGH
-    budget = {"logic_base": 40, "logic": 50, "function": 17, "list": 8, "hoare": 8, "nat": 45, "set": 30}
+    budget = {"logic_base": 14, "logic": 22, "function": 8, "list": 8, "hoare": 8, "nat": 22, "set": 14}
     nshown = 0
     for thy in theories:
         rng = ctx.rng("lib/" + thy)
@@ -859,10 +932,10 @@ def oracle_streams(ctx, recorder=None):
                     # the theory is extended as the generator advances: run the goal now
                     g = goals[-1]
                     limit = budget.get(thy, 20) if ctx.tier == "quick" else 10 ** 6
-                    pick = len(goals) <= limit or rng.random() < 0.15
+                    pick = len(goals) <= limit or rng.random() < 0.06
                     if not pick:
                         continue
-                    heavy = ctx.tier == "thorough" or len(goals) <= 12
+                    heavy = ctx.tier == "thorough" or len(goals) <= 8
                     run_recorded(ctx, g, rng, 0.0, 1.0 if heavy else 0.3, recorder)
                     run_recorded(ctx, g, rng, 0.35, 0.3, recorder)
                     if heavy or rng.random() < 0.3:
@@ -877,7 +950,7 @@ def oracle_streams(ctx, recorder=None):
     from logic import basic
     basic.load_theory("logic")
     rng = ctx.rng("generated")
-    for g in gen_goals(rng, ctx.scale(60, 600)):
+    for g in gen_goals(rng, ctx.scale(40, 600)):
         try:
             g.init_state()
         except Exception:  # noqa
@@ -915,4 +988,11 @@ MANIFEST = {
     "note": "in progress",
     "design_ref": "DESIGN.md 4/C13",
 }
-FINDINGS = []
+FINDINGS = [
+    {"status": "known", "key": "import-fails:shadowed-variable",
+     "what": "a proof in which `introduction` re-declares a variable of the context with another type (recorded steps of set.card_insert: "
+             "names 'x, y, s' with s :: 'a set in the context) exports to a text server.parse_proof cannot read back (the name has one type per text)"},
+    {"status": "known", "key": "import-fails:inst-tyinst-lost",
+     "what": "the textual form of an Inst argument ({x: t, ...}) drops its type instantiation: a line `apply_theorem_for finite_empty, {}` "
+             "(set.finite_subset after apply_backward_step finite_empty) is exported without 'a := 'a and fails its re-check after import"},
+]
